@@ -14,6 +14,8 @@
          the locale they are given
 Declined: that iostream formatting, std::codecvt facets and locales actually invert each other; UTF-8 coverage; floats.
 """
+import re
+
 from engine import facts as F
 from engine import load
 from engine import lrules as L
@@ -37,7 +39,7 @@ def main(rep, tier, only):
     rep.extra.update(db.stats())
     rep.rule("RW-SIB", "io::read / io::write agree on byte count (sizeof(Type)) and byte-order conversion with the caller's format", floor=4)
     rep.rule("CONV", "endianness::convert = native ? identity : swap; swap reverses sizeof(Type) bytes of its copy; reverse_mem is a full reversal", floor=3)
-    rep.rule("CVT", "impl::codecvt never reports success on `partial`; ok/noconv/error map to buffer/input/nothing", floor=2)
+    rep.rule("CVT", "impl::codecvt never reports success on `partial`; ok => buffer only with an initial conversion state (mbsinit), noconv => input, error => nothing", floor=2)
     rep.rule("ENUM", "from_string searches names<Enum>(), names is to_string over every enumerator", floor=2)
     rep.rule("VEC-IO", "vector/dim output and input use the same token sequence and element access", floor=2)
     rep.rule("EXTR", "extract_from_string_locale yields a value only when the input was consumed completely; the given locale is imbued", floor=2)
@@ -194,6 +196,32 @@ def main(rep, tier, only):
             ro = returns(arms["ok"])
             if not why and not any("buf" in r for r in ro):
                 why = "the `ok` arm does not return the converted buffer"
+            if not why:
+                # libstdc++ keeps an incomplete trailing multi-byte sequence in the conversion state and reports `ok`:
+                # the buffer is a success only if std::mbsinit(&state) holds for the state handed to the facet
+                guarded = False
+                for it in arms["ok"]:
+                    for c in F.walk(it, into_lambdas=False):
+                        if c.get("k") != "cond":
+                            continue
+                        ct = T.show(T.norm(u, c.get("c_")))
+                        tt, et = T.show(T.norm(u, c.get("then"))), T.show(T.norm(u, c.get("else")))
+                        m = re.search(r"mbsinit\(&(\w+)\)", ct)
+                        if not m:
+                            continue
+                        pos = ("!= 0" in ct or "!=0" in ct.replace(" ", "")) and not ct.strip().startswith("!")
+                        neg = "== 0" in ct or ct.strip().startswith("!")
+                        if (pos and "buf" in tt and "buf" not in et) or (neg and "buf" in et and "buf" not in tt):
+                            guarded = m.group(1)
+                for it in arms["ok"]:
+                    for st in F.walk(it, into_lambdas=False):
+                        if st.get("k") == "if":
+                            ct = T.show(T.norm(u, st.get("cond")))
+                            if "mbsinit(&" in ct:
+                                guarded = guarded or re.search(r"mbsinit\(&(\w+)\)", ct).group(1)
+                if not guarded:
+                    why = ("the `ok` arm returns the buffer without checking std::mbsinit(&state): an input that ends inside a multi-byte "
+                           "sequence (swallowed into the conversion state) is reported as a successful conversion of its prefix")
         # the empty input is a success by itself
         (rep.fail if why else rep.ok)("CVT", key, F.primary_site(fn), F.describe(fn)[:140], **({"why": why} if why else {"how": "ok=>buffer;noconv=>input;error=>nothing;partial=>grow|nothing"}))
     # ---------------- ENUM
